@@ -62,8 +62,8 @@ static const char *P = "C04";
 
 /* ------------------------------------------------------------------ script */
 enum { T_PIPE, T_UNIX, T_TCP };
-enum { A_NEWOBJ, A_ADD, A_DEL, A_WRITE, A_FILL, A_READ, A_DRAIN, A_SHUTWR, A_CLOSE, A_SIGNAL, A__N };
-static const char *act_name[A__N] = { "newobj", "add", "del", "write", "fill", "read", "drain", "shutwr", "close", "signal" };
+enum { A_NEWOBJ, A_ADD, A_DEL, A_WRITE, A_FILL, A_READ, A_DRAIN, A_SHUTWR, A_CLOSE, A_SIGNAL, A_BADADD, A__N };
+static const char *act_name[A__N] = { "newobj", "add", "del", "write", "fill", "read", "drain", "shutwr", "close", "signal", "badadd" };
 struct act { unsigned char kind, flag; short a, b; int n; };
 struct stepdef { int first, nact; short killer, victim; };
 struct evdef { short slot; short interest; unsigned char persist; };
@@ -140,6 +140,9 @@ static void gen_random_action(vh_rng *r, int c05bias, int big)
 		} else if (k < (c05bias ? 90u : 86u)) {                  /* close (flag bit0: close before del, bit1: abortive) */
 			if (!g_open[s]) continue;
 			g_act(A_CLOSE, s, 0, 0, (int)vh_below(r, 4)); g_open[s] = 0; return;
+		} else if (k < (c05bias ? 92u : 87u)) {                  /* event_add on the (closed) fd number of a slot: refused or undone at once */
+			if (g_open[s]) continue;
+			g_act(A_BADADD, s, 0, g_pick_interest(r), (int)vh_below(r, 2)); return;
 		} else if (k < 97) {                                     /* new object; may land on open slots (dup2 over them) */
 			int a = s, b = (int)vh_below(r, (uint64_t)S.nslot), t;
 			if (a == b) continue;
@@ -651,6 +654,19 @@ static void do_action(struct act *x)
 	case A_SIGNAL:
 		raise(SIGWINCH); sig_raised_step++;
 		break;
+	case A_BADADD: {
+		/* an add that the backend refuses (plain epoll: EBADF) or that is undone before the next wait must leave no
+		 * trace: the fd number is opened again later and a fresh event on it has to reach the kernel (seed C05-3) */
+		struct event *t;
+		short in = project_interest((short)x->n, cur_be);
+		if (rs[s].fd >= 0 || !in) break;
+		t = event_new(base, S.fdnum[s], (short)(in | (x->flag ? EV_PERSIST : 0)), tick_cb, NULL);
+		if (!t) break;
+		{ int w0 = warn_count;
+		  if (event_add(t, NULL) == 0) { vh_stat("add_on_closed_fd_accepted"); event_del(t); }
+		  else { vh_stat("add_on_closed_fd_refused"); warn_count = w0; /* the refusal is logged by the backend, as expected */ } }
+		event_free(t);
+		break; }
 	}
 }
 
